@@ -2,6 +2,7 @@ mod gen_macros;
 use lalrpop;
 
 fn main() {
+    println!("cargo:rustc-check-cfg=cfg(truth_verif)");  // verification hooks guard
     lalrpop::Configuration::new()
         .emit_rerun_directives(true)
         .process_current_dir().unwrap();
